@@ -487,6 +487,20 @@ func (x *runner) runForm(s formScript, c caseRec) {
 			x.fail(td, "set/ok-with-error", "Set returns ok together with an error", c)
 		}
 	}
+	// texts the submission may hand to jid.Parse: whatever Get answers for any field
+	hx.Catch(func() {
+		d.ForFields(func(f form.FieldData) {
+			v, _ := d.Get(f.Var)
+			switch t := v.(type) {
+			case string:
+				or.jid(t)
+			case []string:
+				for _, e := range t {
+					or.jid(e)
+				}
+			}
+		})
+	})
 	for _, id := range s.Gets {
 		var v interface{}
 		var ok bool
